@@ -7,7 +7,9 @@ mod ed;
 mod hist;
 mod histfile;
 mod keys;
+mod printer;
 mod pty;
+mod rawmode;
 
 use common::CharInfoEmitter;
 use std::io::{BufRead, Write};
@@ -27,6 +29,9 @@ fn exec_line(req: &str) -> String {
         Some("hf") => histfile::exec(&f[1..]),
         Some(t) if t.starts_with("ed") => ed::exec(&f[1..]),
         Some("keys") => keys::exec(&f[1..]),
+        Some("raw") => rawmode::exec(&f[1..]),
+        Some("pr") => printer::exec(&f[1..]),
+        Some("pr-raw") => printer::raw(&f[1..]),
         Some(t @ ("direct" | "seg")) => direct::exec(t, &f[1..]),
         Some(t @ ("comp" | "clcp" | "cfs")) => completion::exec(t, &f[1..]),
         _ => None,
@@ -109,6 +114,8 @@ fn main() {
                 "ed08" => ed::gen_profile(&ctx, "ed08", ed::Profile::Search, &mut sink),
                 "ed14" => ed::gen_profile(&ctx, "ed14", ed::Profile::Complete, &mut sink),
                 "keys" => keys::gen(&ctx, &mut sink),
+                "raw" => rawmode::gen(&ctx, &mut sink),
+                "pr" => printer::gen(&ctx, &mut sink),
                 "direct" => direct::gen_direct(&ctx, &mut sink),
                 "seg" => direct::gen_seg(&ctx, &mut sink),
                 "comp" => completion::gen_pure(&ctx, &mut sink),
